@@ -845,7 +845,14 @@ class Function(Ring):
             # re-evaluation of a recorded in-place write: save the contents
             # that are overwritten now (not those of the recording run)
             Fout.setitem = (Fout.setitem[0], operator.getitem(args[0], Fout.setitem[0]).copy())
-        out  = func(*args, **Fkwargs)
+        if (func is operator.setitem and Fout is not None and numpy.isscalar(args[0])
+                and len(args) == 3 and args[1] is Ellipsis and isinstance(Fargs[0], cls)):
+            # `s op= v` recorded on a 0-d polynomial (s[...] = s op v) and re-evaluated with plain
+            # arrays, where s is an immutable number: re-bind the value of the node
+            Fargs[0].x = args[2]
+            out = None
+        else:
+            out  = func(*args, **Fkwargs)
 
         # STEP 3: create new Function instance for output
         if Fout is None:
